@@ -519,12 +519,13 @@ def model_export_to_file(f, model=None, repo=None):
     def _export_subgraph(m):
         from textx import get_children
 
-        f.write(f'subgraph "cluster_{m._tx_filename}" {{\n')
+        file_name = dot_escape(str(m._tx_filename))
+        f.write(f'subgraph "cluster_{file_name}" {{\n')
         f.write(
             f"""
         penwidth=2.0
         color=darkorange4;
-        label = "{m._tx_filename}";
+        label = "{file_name}";
                     """
         )
         for obj in get_children(lambda _: True, m):
